@@ -81,7 +81,7 @@ b := Mid(a := b);
 END_PROGRAM
 
 CONFIGURATION C
-VAR_GLOBAL shared : DINT; END_VAR
+VAR_GLOBAL shared : DINT; gd : DATE := DATE#2024-03-15; gy : INT; gm : INT; gdd : INT; END_VAR
 TASK T1 (INTERVAL := T#1ms, PRIORITY := 1);
 TASK T2 (INTERVAL := T#2ms, PRIORITY := 2);
 PROGRAM P1 WITH T1 : Main;
@@ -109,7 +109,9 @@ pub enum Cmd {
 /// Conditions / log expressions: pure ones (some never true, some sometimes true), and ones that call the user function
 /// `Bump`, which writes through its VAR_IN_OUT argument - directly, nested in or following an allowed pure call.
 /// Evaluating any accepted expression must leave the program's state sequence as it is.
-pub const DEBUG_EXPRS: [&str; 12] = [
+pub const DEBUG_EXPRS: [&str; 14] = [
+    "SPLIT_DATE(gd, gy, gm, gdd)",
+    "ABS(shared) < DINT#0 AND SPLIT_DATE(gd, gy, gm, gdd)",
     "shared < DINT#0",
     "shared > DINT#40",
     "ABS(shared) < DINT#0",
